@@ -53,7 +53,7 @@ def _case(draw, tier):
         "then_subset": draw(sampled_from([None, None, True])) and draw(st.lists(st.integers(0, 200), min_size=1, max_size=10)),
     }
     if mode == "agg":
-        c["data"] = draw(datagen.data_spec(n_node, vmax=3))
+        c["data"] = draw(datagen.data_spec(n_node, vmax=3, dtypes=datagen.DTYPES + ["int16", "uint8", "int32"], stores=datagen.STORES, big=True))
     else:
         c["src"] = draw(sampled_from(["face", "edge", "node"]))
         c["bad_dest"] = draw(sampled_from(["node", "face", "edge", None, "cell"]))
@@ -74,7 +74,8 @@ def classify(case):
         labs.append("size-gap")
     labs.append("mode:" + case["mode"])
     if case["mode"] == "agg":
-        labs.append("dtype:" + case["data"]["dtype"])
+        labs.append("dtype:" + case["data"]["dtype"] + (":values-at-the-edge-of-the-type" if case["data"].get("big") else ""))
+        labs.append("store:" + case["data"].get("store", "C"))
         labs.append(f"rank:{len(case['data']['lead']) + 1}")
         labs.append("dest:" + case["dest"])
         for a in case["aggs"]:
